@@ -7,7 +7,9 @@ witnesses of the repaired defects about matchEntriesOld / matchHostsOld / certAu
 Correspondence: the Lean driver against the real pattern classes, misc.ip_address/ip_network, binascii,
 match_known_hosts / import_known_hosts and import_authorized_keys(...).validate(...) on generated files.
 Oracle: an independent Python reference written from sshd(8)/OpenSSH rules (and ssh-keygen -F) against the real
-lookups, plus damaged key fields between good lines.
+lookups, plus damaged key fields between good lines; lines end at a newline only, option names are case-insensitive
+and judged through the real get_key_option / check_key_permission, environment= against client env requests on a real
+client/server pair, malformed CIDR / repeated options / IPv4-mapped peers in from= (oracle_audit).
 """
 
 from __future__ import annotations
@@ -41,7 +43,11 @@ MANIFEST = {
             'ak_cert_authority_openssh_cert_skipped, for importers that fail with KeyImportError only - checked on '
             'every data field); the behaviour before the four fix: commits is kept as witness theorems about the '
             'pre-fix functions; the option tokenizer inverts OpenSSH quoting (tokenizer_roundtrip) and validate '
-            'returns the first entry whose key and all restrictions match (validate_iff_spec). The model is tied to the code by a differential run on generated trust files, '
+            'returns the first entry whose key and all restrictions match (validate_iff_spec); a text without a '
+            'newline is one line for both loaders whatever else it holds (lines_end_at_newline_only, load_one_line) and '
+            'two spellings of an option name that fold to the same lower-case text have the same effect '
+            '(option_name_case_insensitive, option_flag_case_insensitive), with witnesses about splitLinesPreFix / '
+            'addOptionPreFix for the behaviour before those fix: commits. The model is tied to the code by a differential run on generated trust files, '
             'lookups and option strings, and the property is evaluated on the real code against an independent '
             'reference and ssh-keygen -F.',
     'note': 'key import, HMAC-SHA1 and X.509 subject matching are parameters of the model (instantiated from the real '
@@ -58,6 +64,7 @@ TRUSTED = [
     'HMAC-SHA1 is a function parameter of the model (instantiated with Python hmac/hashlib in the differential run)',
     'Lean transcriptions of CPython str.split/strip/splitlines, fnmatch.translate (sets without ranges), '
     'ipaddress parsing/containment, binascii.a2b_base64 and int() are validated against CPython on every run',
+    'str.lower() on option names is modelled for ASCII letters (Char.toLower); the generated names hold no other cased letters',
     'socket.getaddrinfo inside misc._normalize_scoped_ip (IDNA folding of non-ASCII text, %scope ids) is outside the model',
     'ssh-keygen -F (OpenSSH 9.2) as an independent oracle for plain and hashed host names',
 ]
@@ -166,6 +173,34 @@ def translate(ctx: Ctx) -> Dict[str, Any]:
     if handlers is None:
         raise ValueError('_SSHAuthorizedKeyEntry._handlers not recognised')
 
+    def line_split(tree: Any, *path: str) -> bool:
+        """True when `load` cuts its text with .split('\\n'), False for .splitlines()"""
+        fn = _find(tree.body, *path)
+        kinds = []
+        for n in ast.walk(fn):
+            if isinstance(n, ast.For) and isinstance(n.iter, ast.Call) and isinstance(n.iter.func, ast.Attribute):
+                c = n.iter
+                if c.func.attr == 'splitlines' and not c.args and not c.keywords:
+                    kinds.append(False)
+                elif c.func.attr == 'split' and len(c.args) == 1 and isinstance(c.args[0], ast.Constant) and \
+                        c.args[0].value == '\n' and not c.keywords:
+                    kinds.append(True)
+        if len(kinds) != 1:
+            raise ValueError(f'{".".join(path)}: line splitting loop not recognised')
+        return kinds[0]
+    nl_kh = line_split(kh, 'SSHKnownHosts', 'load')
+    nl_ak = line_split(ak, 'SSHAuthorizedKeys', 'load')
+    if nl_kh != nl_ak:
+        raise ValueError('known_hosts.py and auth_keys.py split their text into lines in different ways')
+
+    # OptionsParser._add_option: is the option name folded with .lower() on both paths (name=value and flag)?
+    ao = _find(misc.body, 'OptionsParser', '_add_option')
+    lowers = [n for n in ast.walk(ao) if isinstance(n, ast.Call) and isinstance(n.func, ast.Attribute) and
+              n.func.attr == 'lower' and isinstance(n.func.value, ast.Name) and n.func.value.id == 'option' and not n.args]
+    if len(lowers) not in (0, 2):
+        raise ValueError('OptionsParser._add_option: option name folding not recognised')
+    fold = len(lowers) == 2
+
     spaces = [i for i in range(0x110000) if chr(i).isspace()]
     breaks = [i for i in range(0x110000) if len(('a' + chr(i) + 'b').splitlines()) == 2]
     src = f'''/- GENERATED by harness/props/C17.py translate() from the asyncssh tree under check — do not edit. -/
@@ -176,6 +211,13 @@ def pySpaceCodes : List Nat := {spaces}
 
 /-- code points at which CPython `str.splitlines()` breaks -/
 def pyLineBreakCodes : List Nat := {breaks}
+
+/-- known_hosts.py `SSHKnownHosts.load` / auth_keys.py `SSHAuthorizedKeys.load`: `true` when the text is cut with
+    `.split('\\n')` (a line ends only at a newline, as in OpenSSH), `false` when it is cut with `.splitlines()` -/
+def lineSplitNewlineOnly : Bool := {'true' if nl_kh else 'false'}
+
+/-- misc.py `OptionsParser._add_option`: `true` when option names are folded with `.lower()` before they are stored -/
+def optNamesFolded : Bool := {'true' if fold else 'false'}
 
 /-- known_hosts.py `SSHKnownHosts.load`: `any(c in pattern for c in <this>)` sends a line to the pattern list -/
 def khMetaChars : List Char := [{', '.join(_lean_char(c) for c in meta)}]
@@ -200,7 +242,7 @@ end AsyncsshModel.Gen.C17
 '''
     changed = vlib.write_if_changed(GEN_PATH, src)
     return {'gen': 'Gen/C17.lean', 'changed': changed, 'khMetaChars': meta, 'markers': accepted,
-            'handlers': [k for k, _ in handlers],
+            'handlers': [k for k, _ in handlers], 'lineSplitNewlineOnly': nl_kh, 'optNamesFolded': fold,
             'pins': {'pattern._PatternList.matches': vlib.ast_pin('asyncssh/pattern.py', '_PatternList.matches'),
                      'known_hosts.SSHKnownHosts._match': vlib.ast_pin('asyncssh/known_hosts.py', 'SSHKnownHosts._match'),
                      'misc.OptionsParser._parse_options': vlib.ast_pin('asyncssh/misc.py', 'OptionsParser._parse_options')}}
@@ -1049,11 +1091,41 @@ def ossh_parse_options(s: str) -> Optional[Tuple[List[Tuple[str, Optional[str]]]
     return opts, s[i:].strip()
 
 
+def ossh_bad_cidr(e: str) -> bool:
+    """addr_pton_cidr() == -2: an address with a decimal mask that is too long for the family or leaves host
+    bits set; addr_match_list then returns -2 and the key is refused whatever else the list holds"""
+    import ipaddress
+    a, sep, m = e.partition('/')
+    if not sep or not m.isascii() or not m.isdigit() or int(m) > 128:
+        return False
+    ip = ref_ip(a)
+    if ip is None:
+        return False
+    if int(m) > ip.max_prefixlen:
+        return True
+    return (int(ip) & ((1 << (ip.max_prefixlen - int(m))) - 1)) != 0
+
+
+def ossh_unmap(addr: str) -> str:
+    """sshd normalises an IPv4-mapped IPv6 peer address to the IPv4 address before any matching"""
+    ip = ref_ip(addr)
+    if ip is not None and ip.version == 6 and ip.ipv4_mapped is not None:
+        return str(ip.ipv4_mapped)
+    return addr
+
+
 def ref_entry_matches(opts: Sequence[Tuple[str, Optional[str]]], host: str, addr: str,
                       principals: Optional[Sequence[str]]) -> bool:
+    addr = ossh_unmap(addr)
+    host = ossh_unmap(host)
     ip = ref_ip(addr)
+    if sum(1 for n, v in opts if n.lower() == 'command' and v is not None) > 1:
+        return False                     # auth-options.c: "multiple \"command\" clauses", the line is refused
     for name, val in opts:
+        name = name.lower()              # auth-options.c compares option names with strncasecmp
         if name == 'from' and val is not None:
+            if any(ossh_bad_cidr(e.lstrip('!')) for e in val.split(',')):
+                return False
             ln = {'elems': val.split(',')}
             if not ref_selects(ln, [host, addr], ip, fold=False):
                 return False
@@ -1069,6 +1141,7 @@ def ref_options(opts: Sequence[Tuple[str, Optional[str]]]) -> Dict[str, Any]:
     """the option values the documented rules give (only the kinds the oracle compares by value)"""
     out: Dict[str, Any] = {}
     for name, val in opts:
+        name = name.lower()
         if val is None:
             out[name] = True
         elif name == 'command':
@@ -1140,13 +1213,40 @@ def gen_ak_oracle_line(rng: Any, host: str, addr: str, principal: str, key_text:
     return line, items
 
 
+class KeyOptionView:
+    """what the server code sees of a validate() result: the real SSHServerConnection.get_key_option /
+    check_key_permission evaluated on it (names asked for as connection.py / channel.py ask for them)"""
+
+    PERMS = {'no-pty': 'pty', 'no-port-forwarding': 'port-forwarding', 'no-agent-forwarding': 'agent-forwarding',
+             'no-x11-forwarding': 'X11-forwarding', 'no-user-rc': 'user-rc'}
+
+    def __init__(self, options: Dict[str, Any]) -> None:
+        from asyncssh.connection import SSHServerConnection
+        self.conn = object.__new__(SSHServerConnection)
+        self.conn._key_options = options
+
+    def value(self, name: str) -> Any:
+        if name in self.PERMS:
+            return True if not self.conn.check_key_permission(self.PERMS[name]) else None
+        return self.conn.get_key_option(name)
+
+
 def check_ak_line(line: str, key: Any, host: str, addr: str, principals: Optional[List[str]]) -> Optional[Tuple[str, str]]:
     """one authorized_keys line against the OpenSSH reading of its option text"""
     parsed = ossh_parse_options(line) if not line.startswith(('ssh-', 'ecdsa-')) else ([], line)
     if parsed is None:
         return None                  # OpenSSH rejects the option text: outside the rule
     opts, rest = parsed
-    ca = any(n == 'cert-authority' and v is None for n, v in opts)
+    ca = any(n.lower() == 'cert-authority' and v is None for n, v in opts)
+    def canon(n: str) -> str:            # the spelling asyncssh documents: lower case, except no-X11-forwarding
+        return 'no-X11-forwarding' if n.lower() == 'no-x11-forwarding' else n.lower()
+    if any(n != canon(n) for n, _v in opts):
+        # another spelling of the names: first judge the documented (lower-case) spelling of the same line; a failure there has
+        # another root cause and is reported as such, a failure only here is the option-name case rule
+        low = ','.join(canon(n) if v is None else canon(n) + '=' + G.quote_openssh(v) for n, v in opts)
+        r_low = check_ak_line(low + ' ' + rest, key, host, addr, principals)
+        if r_low is not None:
+            return r_low
     try:
         ak = asyncssh.import_authorized_keys(line + '\n')
         got = ak.validate(key, host, addr, principals, ca)
@@ -1157,21 +1257,42 @@ def check_ak_line(line: str, key: Any, host: str, addr: str, principals: Optiona
         return (f'authorized-keys-exception:{type(e).__name__}', f'{line!r}: {type(e).__name__}: {e}')
     want_match = ref_entry_matches(opts, host, addr, principals)
     backslash = any(v is not None and '\\' in v for _n, v in opts)
+    cased = any(n != canon(n) for n, _v in opts)
+    bad_cidr = any(n.lower() == 'from' and v is not None and any(ossh_bad_cidr(e.lstrip('!')) for e in v.split(','))
+                   for n, v in opts)
+    mapped = ossh_unmap(addr) != addr
+    lowered = [(n.lower(), v) for n, v in opts]
+    repeat = sum(1 for n, v in lowered if n == 'command' and v is not None) > 1 or \
+        len([v.partition('=')[0] for n, v in lowered if n == 'environment' and v]) != \
+        len(set(v.partition('=')[0] for n, v in lowered if n == 'environment' and v))
     if (got is not None) != want_match:
         sig = 'option-dequote:backslash-dropped' if backslash else \
+            'option-name-case-sensitive' if cased else \
+            'option-repeat:last-wins' if repeat and got is not None else \
+            'from-malformed-cidr-not-refused' if bad_cidr and got is not None else \
+            'from-ipv4-mapped-peer-not-normalised' if mapped else \
             'authorized-keys-restriction:' + ('accepted' if got is not None else 'refused')
         return (sig, f'{line!r}: validate(host={host!r}, addr={addr!r}, principals={principals}) returned '
                      f'{"options" if got is not None else "None"} but the from/principals rules say '
-                     f'{"match" if want_match else "no match"}')
+                     f'{"match" if want_match else "no match"}' +
+                     (' (OpenSSH refuses a line with more than one command=)' if sig.startswith('option-repeat') else
+                      ' (a network with host bits set or an over-long mask makes sshd refuse the key)'
+                      if sig.startswith('from-malformed') else
+                      ' (sshd matches an IPv4-mapped peer as its IPv4 address)' if sig.startswith('from-ipv4') else
+                      ' (option names are case-insensitive)' if sig.startswith('option-name-case') else ''))
     if got is None:
         return None
     want = ref_options(opts)
+    view = KeyOptionView(got)
     for name, w in want.items():
-        g = got.get(name)
+        g = view.value(name)
         if g != w:
-            sig = 'option-dequote:backslash-dropped' if backslash else f'option-value:{name}'
-            return (sig, f'{line!r}: option {name} is {g!r}, OpenSSH quoting gives {w!r}')
-    extra = set(got) - set(want) - {'from', 'principals', 'subject'}
+            sig = 'option-dequote:backslash-dropped' if backslash else \
+                ('option-name-case-sensitive' if cased else
+                 'option-repeat:last-wins' if repeat and name in ('environment', 'command') else f'option-value:{name}')
+            return (sig, f'{line!r}: option {name} is {g!r} for the server (get_key_option / check_key_permission), '
+                         f'the OpenSSH reading gives {w!r}')
+    extra = set(k.lower() for k in got) - set(want) - {'from', 'principals', 'subject'}
     if extra:
         return ('option-value:unexpected', f'{line!r}: unexpected options {sorted(extra)}')
     return None
@@ -1201,6 +1322,170 @@ def check_ak_skip(good_lines: Sequence[str], bad_line: str, pos: int, damage: st
     return None
 
 
+LINE_BREAK_LOOKALIKES = ['\x0b', '\x0c', '\x1c', '\x1d', '\x1e', '\x85', '\u2028', '\u2029', '\r']
+
+
+def check_line_split(kind: str, sep: str, note: str, k_listed: int, k_hidden: int,
+                     keys: Sequence[Any]) -> Optional[Tuple[str, str]]:
+    """OpenSSH file format: one entry per `\\n`-terminated line.  A key whose comment holds `sep` followed by
+    the text of another entry is still ONE line: the text in the comment must not become an entry."""
+    pl = G.pool_lines()
+    listed = ' '.join(pl[k_listed].split()[:2])
+    hidden = ' '.join(pl[k_hidden].split()[:2])
+    if kind == 'authorized_keys':
+        text = '# managed\n' + 'command="/usr/bin/backup",no-pty ' + listed + ' ' + note + sep + hidden + '\n' + \
+               'no-pty ' + ' '.join(pl[3].split()[:2]) + ' other\n'
+        assert len(text.split('\n')) == 4
+        try:
+            got = asyncssh.import_authorized_keys(text).validate(keys[k_hidden], 'h', '127.0.0.1')
+        except Exception as e:
+            return (f'authorized-keys-exception:{type(e).__name__}', f'{text!r}: {type(e).__name__}: {e}')
+        if got is not None:
+            return ('line-split:non-newline-break',
+                    f'authorized_keys text {text!r} has three newline-terminated lines; the key that only occurs in the '
+                    f'COMMENT of line 2 (after {sep!r}) is accepted by validate() with options {got!r}: the comment '
+                    f'was read as a line of its own')
+        return None
+    text = 'host1 ' + listed + ' ' + note + sep + '* ' + hidden + '\n'
+    try:
+        got = impl_lookup(text, 'other.example.com', '10.1.2.3', None)
+    except Exception as e:
+        return (f'lookup-exception:{type(e).__name__}', f'{text!r}: {type(e).__name__}: {e}')
+    if any(got):
+        return ('line-split:non-newline-break',
+                f'known_hosts text {text!r} is one newline-terminated line for host1; lookup of other.example.com returns '
+                f'{[len(x) for x in got]} host/CA/revoked keys: the comment after {sep!r} was read as a `*` host line')
+    return None
+
+
+def check_env_precedence(kenv: Dict[str, str], cenv: Dict[str, str], chunk_seed: int) -> Optional[Tuple[str, str]]:
+    """environment="N=v" of the matching authorized_keys line is what the session gets for N, whatever the client
+    asks for in its "env" requests (sshd applies the key's environment last); other client variables pass"""
+    import random
+    import pair
+    ckey = asyncssh.generate_private_key('ssh-ed25519')
+    line = ','.join('environment=' + G.quote_openssh(f'{k}={v}') for k, v in kenv.items()) + ' ' + \
+        ckey.export_public_key().decode()
+    seen: Dict[str, Any] = {}
+
+    async def go() -> None:
+        def handler(proc: Any) -> None:
+            seen['env'] = dict(proc.env)
+            proc.exit(0)
+        cconn, sconn, _hub = await pair.make_pair(
+            server_factory=asyncssh.SSHServer,
+            server_opts={'authorized_client_keys': asyncssh.import_authorized_keys(line), 'process_factory': handler},
+            client_opts={'client_keys': [ckey]}, chunker=pair.seeded_chunker(random.Random(chunk_seed)))
+        try:
+            await cconn.run('x', env=cenv)
+        finally:
+            cconn.close()
+            sconn.close()
+    try:
+        pair.run(go(), timeout=30)
+    except Exception as e:
+        return (f'environment-session-exception:{type(e).__name__}', f'{line!r}: session failed: {type(e).__name__}: {e}')
+    want = dict(cenv)
+    want.update(kenv)
+    if seen.get('env') != want:
+        bad = sorted(k for k in kenv if (seen.get('env') or {}).get(k) != kenv[k])
+        sig = 'environment-option-overridden-by-client' if bad else 'environment-session-mismatch'
+        return (sig, f'authorized_keys line {line.split(" ssh-")[0]!r}, client sends env {cenv!r}: the session environment is '
+                     f'{seen.get("env")!r}, the key\'s environment option requires {want!r}')
+    return None
+
+
+def oracle_audit(ctx: Ctx, rng: Any, res: OracleResult, hist: Hist, report: Any, run_ak: Any) -> None:
+    """rules where the code used to be its own reference: line ends, option-name case, environment precedence,
+    malformed CIDR in from=, repeated options, IPv4-mapped peers"""
+    pl = G.pool_lines()
+    keys = G.pool()
+    # (a) a line ends at `\n` only
+    cases = [(kind, sep, 'laptop', 0, 1) for kind in ('authorized_keys', 'known_hosts') for sep in LINE_BREAK_LOOKALIKES]
+    for _ in range(ctx.n(20, 300)):
+        cases.append((rng.choice(['authorized_keys', 'known_hosts']), rng.choice(LINE_BREAK_LOOKALIKES),
+                      rng.choice(['', 'a b', 'x@y', 'note' + rng.choice(LINE_BREAK_LOOKALIKES)]),
+                      rng.randrange(3), rng.randrange(3)))
+    for kind, sep, note, kl, kh_ in cases:
+        if kl == kh_:
+            continue
+        res.evaluations += 1
+        r = check_line_split(kind, sep, note, kl, kh_, keys)
+        hist.hit('line-split:' + kind + (':fail' if r else ':ok'))
+        if r:
+            report(r[0], r[1], {'kind': 'line-split', 'file': kind, 'sep': sep, 'note': note, 'listed': kl, 'hidden': kh_})
+    # (c) environment= wins over the client's env requests (real client and server, in-memory wire)
+    envs = [({'ROLE': 'readonly', 'TENANT': 'acme'}, {'ROLE': 'admin', 'TENANT': 'other', 'LANG': 'C'})]
+    for _ in range(ctx.n(2, 25)):
+        ks = rng.sample(['ROLE', 'PATH', 'A', 'X_1', 'TENANT'], rng.choice([1, 2]))
+        kenv = {k: rng.choice(['1', 'a b', '/bin', 'x=y']) for k in ks}
+        cenv = {k: rng.choice(['2', 'evil', '/tmp']) for k in rng.sample(['ROLE', 'PATH', 'A', 'X_1', 'TENANT', 'LANG'], 3)}
+        envs.append((kenv, cenv))
+    for i, (kenv, cenv) in enumerate(envs):
+        res.evaluations += 1
+        r2 = check_env_precedence(kenv, cenv, i)
+        hist.hit('env-precedence' + (':fail' if r2 else ':ok'))
+        if r2:
+            report(r2[0], r2[1], {'kind': 'env', 'key_env': kenv, 'client_env': cenv, 'chunk_seed': i})
+        res.nontrivial += 1
+    # (b) option names are case-insensitive; (d) malformed CIDR; (e) repeats; (f) IPv4-mapped peer
+    fixed = [
+        ('From="10.0.0.0/8" {k}', 'h', '192.168.1.1', None),
+        ('No-Pty,NO-PORT-FORWARDING,Command="forced" {k}', 'h', '10.0.0.1', None),
+        ('Cert-Authority,Principals="ops" {k}', 'h', '10.0.0.1', ['dev']),
+        ('ENVIRONMENT="ROLE=readonly",no-X11-forwarding {k}', 'h', '10.0.0.1', None),
+        ('from="!127.0.0.1/8,*" {k}', 'localhost', '127.0.0.1', None),
+        ('from="!127.0.0.0/33,*" {k}', 'localhost', '127.0.0.1', None),
+        ('from="!10.1.2.3/16,*.example.com" {k}', 'a.example.com', '10.1.9.9', None),
+        ('command="first",command="second" {k}', 'h', '10.0.0.1', None),
+        ('environment="ROLE=readonly",environment="ROLE=admin" {k}', 'h', '10.0.0.1', None),
+        ('from="!127.0.0.0/8,*" {k}', 'h', '::ffff:127.0.0.1', None),
+        ('from="127.0.0.0/8" {k}', 'h', '::ffff:127.0.0.1', None),
+        ('from="!127.*,*" {k}', 'h', '::ffff:127.0.0.1', None),
+    ]
+    for c, h, a, pr in fixed:
+        run_ak(c.format(k=pl[0]), keys[0], h, a, pr, 'audit-corpus')
+    names = ['from', 'command', 'environment', 'principals', 'permitopen', 'no-pty', 'no-port-forwarding',
+             'no-agent-forwarding', 'no-x11-forwarding', 'cert-authority']
+    for _ in range(ctx.n(150, 3000)):
+        host = rng.choice(G.HOSTS[:8])
+        addr = rng.choice(G.ADDRS4)
+        k = rng.randrange(3)
+        nm = rng.choice(names)
+        spelled = ''.join(ch.upper() if rng.random() < 0.5 else ch for ch in nm)
+        r = rng.random()
+        pr: Optional[List[str]] = None
+        if nm == 'from':
+            if r < 0.5:          # malformed network, negated or not, in front of something that admits
+                a4 = rng.choice(G.ADDRS4)
+                bits = rng.choice([8, 16, 24, 33, 40])
+                e = ('!' if rng.random() < 0.7 else '') + a4 + '/' + str(bits)
+                v = e + ',' + rng.choice(['*', host, addr])
+                if not ossh_bad_cidr(e.lstrip('!')):
+                    continue
+                spelled = nm if rng.random() < 0.7 else spelled
+            else:
+                v = rng.choice(['10.0.0.0/8', '!' + addr + ',*', '*.example.com', host, '192.168.0.0/16'])
+            if rng.random() < 0.15:
+                addr = '::ffff:' + addr
+            text = f'{spelled}="{v}"'
+        elif nm == 'command':
+            text = f'{spelled}="forced {rng.randrange(9)}"' + (',command="again"' if r < 0.15 else '')
+        elif nm == 'environment':
+            text = f'{spelled}="ROLE=a"' + (',environment="ROLE=b"' if r < 0.3 else ',environment="B=1"' if r < 0.5 else '')
+        elif nm == 'principals':
+            text = f'cert-authority,{spelled}="' + rng.choice(['ops', 'alice,bob', '!eve,*']) + '"'
+            pr = [rng.choice(['ops', 'alice', 'eve', 'dev'])]
+        elif nm == 'permitopen':
+            text = f'{spelled}="localhost:{rng.choice([22, 80])}"'
+        else:
+            text = spelled + (',' + rng.choice(['NO-PTY', 'no-pty', 'No-User-Rc']) if r < 0.3 else '')
+            if 'cert-authority' in text.lower():
+                pr = ['alice']
+        run_ak(text + rng.choice([' ', '\t']) + pl[k], keys[k], host, addr, pr, 'audit-gen')
+        res.nontrivial += 1
+
+
 def oracle(ctx: Ctx) -> OracleResult:
     res = OracleResult()
     hist = Hist()
@@ -1208,12 +1493,15 @@ def oracle(ctx: Ctx) -> OracleResult:
     pl = G.pool_lines()
     keys = G.pool()
     seen_sig: Dict[str, int] = {}
+    firsts: List[Failure] = []
+    more: List[Failure] = []
 
     def report(sig: str, what: str, replay: Dict[str, Any]) -> None:
         hist.hit('fail:' + sig)
         seen_sig[sig] = seen_sig.get(sig, 0) + 1
         if seen_sig[sig] <= 3:
-            res.failures.append(Failure(sig, what, replay))
+            # the first input of every root cause ahead of further inputs of the same one
+            (firsts if seen_sig[sig] == 1 else more).append(Failure(sig, what, replay))
 
     def run_kh(lines: List[Dict[str, Any]], host: str, addr: str, port: Optional[int], label: str) -> None:
         res.evaluations += 1
@@ -1243,6 +1531,17 @@ def oracle(ctx: Ctx) -> OracleResult:
                                          budget=40)
             r2 = check_kh(small, host, addr, port) or r
             report(sig, r2[1], {'kind': 'kh', 'lines': small, 'host': host, 'addr': addr, 'port': port})
+
+    def run_ak(line: str, key: Any, host: str, addr: str, principals: Optional[List[str]], label: str) -> None:
+        res.evaluations += 1
+        r = check_ak_line(line, key, host, addr, principals)
+        hist.hit('ak:' + label + (':fail' if r else ':ok'))
+        if r:
+            report(r[0], r[1], {'kind': 'ak-line', 'line': line, 'key': blob_of(key), 'host': host, 'addr': addr,
+                                'principals': principals})
+
+    # (A) the rules added after the model/code audit, first: one failing input per root cause leads the report
+    oracle_audit(ctx, rng, res, hist, report, run_ak)
 
     # (0) inputs from correspondence disagreements first
     for s in ctx.suspects[:200]:
@@ -1311,13 +1610,6 @@ def oracle(ctx: Ctx) -> OracleResult:
     oracle_keygen(ctx, rng, res, hist)
 
     # (4) authorized_keys: option text read as OpenSSH reads it; all restrictions required
-    def run_ak(line: str, key: Any, host: str, addr: str, principals: Optional[List[str]], label: str) -> None:
-        res.evaluations += 1
-        r = check_ak_line(line, key, host, addr, principals)
-        hist.hit('ak:' + label + (':fail' if r else ':ok'))
-        if r:
-            report(r[0], r[1], {'kind': 'ak-line', 'line': line, 'key': blob_of(key), 'host': host, 'addr': addr,
-                                'principals': principals})
     for c in AK_CORPUS:
         run_ak(c.format(k0=pl[0]), keys[0], 'a.example.com', '10.1.2.3', ['alice'] if 'cert-authority' in c else None, 'corpus')
         if 'cert-authority' in c:
@@ -1361,6 +1653,7 @@ def oracle(ctx: Ctx) -> OracleResult:
             report(r[0], r[1], {'kind': 'ak-skip', 'good': good, 'bad': bad, 'pos': pos, 'damage': kind})
         res.nontrivial += 1
 
+    res.failures = firsts + more + res.failures
     res.histogram = dict(hist)
     res.samples = [{'known_hosts': render_kh(corpus_lines(KH_CORPUS[9]['lines'], rng)), 'lookup': ['h', '10.9.1.1', 2222]},
                    {'authorized_keys_line': AK_CORPUS[3].format(k0='<key>')}]
@@ -1376,7 +1669,7 @@ def parse_plain_kh(text: str) -> List[Dict[str, Any]]:
     """structure of a simply formatted known_hosts text (replays and suspects)"""
     import base64
     lines = []
-    for raw in text.splitlines():
+    for raw in text.split('\n'):          # OpenSSH: a line ends at a newline (a \r before it is white space)
         raw = raw.strip()
         if not raw or raw.startswith('#'):
             continue
@@ -1439,6 +1732,14 @@ def replay(ctx: Ctx, rep: Dict[str, Any]) -> List[Failure]:
                 except Exception:
                     continue
         x = check_ak_skip(r['good'], r['bad'], r['pos'], r['damage'], keys)
+        if x:
+            out.append(Failure(x[0], x[1], r))
+    elif kind == 'line-split':
+        x = check_line_split(r['file'], r['sep'], r['note'], r['listed'], r['hidden'], G.pool())
+        if x:
+            out.append(Failure(x[0], x[1], r))
+    elif kind == 'env':
+        x = check_env_precedence(r['key_env'], r['client_env'], r.get('chunk_seed', 0))
         if x:
             out.append(Failure(x[0], x[1], r))
     elif kind == 'keygen':
